@@ -235,3 +235,10 @@ Proof.
   pose proof (psiP_gen (fun k => plookup k d) x Hx (pk_maxkey d) 1) as H1.
   unfold Qpow in *. rewrite H1. change (Z.of_nat 1 - 1)%Z with 0%Z. change (Qnat 0) with 0. cbn [Qpower]. ring.
 Qed.
+
+Lemma dict_pgf_is_polynomial d x : NoDup (map fst d) ->
+  pk_psi d x == peval (pk_coeffs d) x /\ (~ x == 0 -> pk_psiP d x == D (pk_coeffs d) x).
+Proof. intros ND. split; [apply pk_psi_poly; exact ND|apply pk_psiP_poly; exact ND]. Qed.
+
+(* example used by Props/C07x.v *)
+Definition ex_Pk : pkdict := [(1%nat, 1 # 2); (3%nat, 1 # 2)].
